@@ -2907,6 +2907,218 @@ def tail_duplication(repo, rebuild, only_rels=None):
     return len(changed)
 
 
+# ---------------------------------------------------------------------------------------------------------------------
+# value objects: a local built from an unlisted NamedTuple class and used only through its fields, properties and small methods
+
+
+def _namedtuple_fields(cnode):
+    if not any((dotted(b) or "").split(".")[-1] == "NamedTuple" for b in cnode.bases) or cnode.keywords or cnode.decorator_list:
+        return None
+    fields = []
+    for st in cnode.body:
+        if isinstance(st, ast.AnnAssign) and isinstance(st.target, ast.Name):
+            if st.value is not None:
+                return None     # defaults: keep it simple
+            fields.append(st.target.id)
+        elif isinstance(st, _FUNC):
+            if st.name in ("__new__", "__init__", "__getattr__", "__getattribute__"):
+                return None
+        elif isinstance(st, ast.Expr) and isinstance(st.value, ast.Constant):
+            continue
+        elif isinstance(st, ast.Pass):
+            continue
+        else:
+            return None
+    return fields
+
+
+def _returns_as_expr(stmts):
+    """The value a body of `if T: return A` ... `return B` hands back, as one expression (or None)."""
+    stmts = _docless(stmts)
+    if not stmts:
+        return None
+    st = stmts[0]
+    if isinstance(st, ast.Return) and st.value is not None and len(stmts) == 1:
+        return st.value
+    if isinstance(st, ast.If) and not st.orelse and len(st.body) == 1 and isinstance(st.body[0], ast.Return) and st.body[0].value is not None:
+        rest = _returns_as_expr(stmts[1:])
+        if rest is None:
+            return None
+        a, b = st.body[0].value, rest
+        tv = lambda e: isinstance(e, ast.Constant) and isinstance(e.value, bool)
+        if tv(a) and tv(b) and a.value != b.value:
+            return st.test if a.value else ast.UnaryOp(op=ast.Not(), operand=st.test)      # (as a truth value)
+        return ast.IfExp(test=st.test, body=a, orelse=b)
+    if isinstance(st, ast.If) and st.orelse:
+        a, b = _returns_as_expr(st.body), _returns_as_expr(st.orelse)
+        if a is None or b is None or len(stmts) != 1:
+            return None
+        return ast.IfExp(test=st.test, body=a, orelse=b)
+    return None
+
+
+def _scalarize_value_objects_in(fnode, module, repo, known):
+    n = 0
+    for st in [x for x in ast.walk(fnode) if isinstance(x, ast.Assign)]:
+        if not (len(st.targets) == 1 and isinstance(st.targets[0], ast.Name) and isinstance(st.value, ast.Call)):
+            continue
+        x = st.targets[0].id
+        d = dotted(st.value.func)
+        if d is None:
+            continue
+        # the class: defined here or imported from a module of the repository, and not one of the reference classes
+        ci = module.classes.get(d)
+        if ci is None and d in module.imports:
+            tgt = module.imports[d]
+            if "." in tgt:
+                m2 = repo.modules.get(tgt.rsplit(".", 1)[0].replace(".", "/") + ".py")
+                ci = m2.classes.get(tgt.rsplit(".", 1)[1]) if m2 is not None else None
+        if ci is None or ("%s::%s" % (ci.module.rel, ci.name)) in known.get("class_attrs", {}):
+            continue
+        fields = _namedtuple_fields(ci.node)
+        if not fields:
+            continue
+        call = st.value
+        if any(isinstance(a, ast.Starred) for a in call.args) or any(k.arg is None for k in call.keywords) or len(call.args) > len(fields):
+            continue
+        vals = dict(zip(fields, call.args))
+        ok = True
+        for k in call.keywords:
+            if k.arg not in fields or k.arg in vals:
+                ok = False
+            vals[k.arg] = k.value
+        if not ok or set(vals) != set(fields):
+            continue
+        stores = [z for z in ast.walk(fnode) if isinstance(z, ast.Name) and z.id == x and isinstance(z.ctx, (ast.Store, ast.Del))]
+        if len(stores) != 1:
+            continue
+        set_parents(fnode)
+        loads = [z for z in ast.walk(fnode) if isinstance(z, ast.Name) and z.id == x and isinstance(z.ctx, ast.Load)]
+        methods = {f.name: f for f in ci.node.body if isinstance(f, ast.FunctionDef)}
+
+        def member(attr, args, depth=0):
+            """expression for x.attr (args None) or x.attr(*args)"""
+            if depth > 4:
+                return None
+            if attr in fields and args is None:
+                return ast.Name(id="%s__%s" % (x, attr), ctx=ast.Load())
+            f = methods.get(attr)
+            if f is None or f.args.vararg or f.args.kwarg or f.args.kwonlyargs or f.args.posonlyargs or f.args.defaults:
+                return None
+            decs = [unparse(dd) for dd in f.decorator_list]
+            params = [a.arg for a in f.args.args]
+            if not params:
+                return None
+            if args is None:
+                if decs != ["property"] or len(params) != 1:
+                    return None
+                args = []
+            elif decs or len(args) != len(params) - 1 or not all(_simple(a) for a in args):
+                return None
+            e = _returns_as_expr(f.body)
+            if e is None:
+                return None
+            e = clone(e)
+            selfp = params[0]
+            bind = dict(zip(params[1:], args))
+            bad = [False]
+
+            class S(ast.NodeTransformer):
+                def visit_Attribute(self, node):
+                    if isinstance(node.value, ast.Name) and node.value.id == selfp and isinstance(node.ctx, ast.Load):
+                        r = member(node.attr, None, depth + 1)
+                        if r is None:
+                            bad[0] = True
+                            return node
+                        return r
+                    self.generic_visit(node)
+                    return node
+
+                def visit_Call(self, node):
+                    if isinstance(node.func, ast.Attribute) and isinstance(node.func.value, ast.Name) and node.func.value.id == selfp and node.func.attr in methods \
+                            and node.func.attr not in fields:
+                        bad[0] = True       # (a method calling a method: not needed so far)
+                        return node
+                    self.generic_visit(node)
+                    return node
+
+                def visit_Name(self, node):
+                    if node.id == selfp:
+                        bad[0] = True
+                    if node.id in bind and isinstance(node.ctx, ast.Load):
+                        return clone(bind[node.id])
+                    return node
+            e = S().visit(e)
+            return None if bad[0] else e
+
+        repl = []
+        for z in loads:
+            p = getattr(z, "_parent", None)
+            if not (isinstance(p, ast.Attribute) and p.value is z and isinstance(p.ctx, ast.Load)):
+                ok = False
+                break
+            pp = getattr(p, "_parent", None)
+            if isinstance(pp, ast.Call) and pp.func is p and p.attr not in fields:
+                if pp.keywords or any(isinstance(a, ast.Starred) for a in pp.args):
+                    ok = False
+                    break
+                e = member(p.attr, list(pp.args))
+                whole = pp
+            else:
+                e = member(p.attr, None)
+                whole = p
+            if e is None:
+                ok = False
+                break
+            repl.append((whole, e))
+        if not ok:
+            continue
+        mapping = {id(w): e for w, e in repl}
+
+        class R(ast.NodeTransformer):
+            def visit(self, node):
+                if id(node) in mapping:
+                    return ast.copy_location(mapping[id(node)], node)
+                return super().visit(node)
+        R().visit(fnode)
+        # `not not T` as the test of an if / while is T
+        for z in ast.walk(fnode):
+            if isinstance(z, (ast.If, ast.While)):
+                while isinstance(z.test, ast.UnaryOp) and isinstance(z.test.op, ast.Not) and isinstance(z.test.operand, ast.UnaryOp) and isinstance(z.test.operand.op, ast.Not):
+                    z.test = z.test.operand.operand
+        # the construction becomes one assignment per field (arguments are evaluated in the order they were written)
+        order = [f for f in fields if f in dict(zip(fields, call.args))] + [k.arg for k in call.keywords]
+        new = [ast.copy_location(ast.Assign(targets=[ast.Name(id="%s__%s" % (x, f), ctx=ast.Store())], value=vals[f]), st) for f in order]
+        holder = getattr(st, "_parent", None)
+        done = False
+        for field in ("body", "orelse", "finalbody"):
+            blk = getattr(holder, field, None)
+            if isinstance(blk, list) and st in blk:
+                i = blk.index(st)
+                blk[i:i + 1] = new
+                done = True
+        if not done:
+            continue
+        ast.fix_missing_locations(fnode)
+        n += 1
+    return n
+
+
+def scalarize_value_objects(repo, known, rebuild):
+    changed = set()
+    for rel, m in repo.modules.items():
+        n = 0
+        for f in [x for x in ast.walk(m.tree) if isinstance(x, _FUNC)]:
+            if any(isinstance(z, ast.Call) for z in ast.walk(f)):
+                n += _scalarize_value_objects_in(f, m, repo, known)
+        if n:
+            ast.fix_missing_locations(m.tree)
+            changed.add(rel)
+    if changed:
+        rebuild(repo, changed)
+    return len(changed)
+
+
 def _constants_only_class(node):
     if node.bases or node.keywords or node.decorator_list:
         return False
@@ -3071,6 +3283,8 @@ def normalize(repo, rebuild):
             for rel in dropped:
                 ast.fix_missing_locations(repo.modules[rel].tree)
             rebuild(repo, dropped)
+    if scalarize_value_objects(repo, known, rebuild):
+        notes.append("local value object(s) of an unlisted NamedTuple class taken apart into one local per field")
     coalesce_inlined_copies(repo, rebuild)
     if tail_duplication(repo, rebuild):
         notes.append("common tail of an if / elif chain whose branches select constants for it moved back into the branches")
